@@ -14,7 +14,7 @@ from ..astutil import (
     body_raises, call_simple_name, conjuncts, const_str, dotted, exc_name, guard_chain, if_raising, names_in, pm, pmall, returns_of, short,
 )
 from ..cfg import ReachingDefs, call_name, cfg_of, calls_at, node_calls, own_exprs
-from ..constraints import summarize
+from ..constraints import fact_satisfied, summarize
 from ..dectable import IntSet, int_cond
 from ..loader import AnalysisError, ClassInfo, FunctionInfo, body_walk, clone, norm, walk_no_nested
 from ..report import key
@@ -144,7 +144,7 @@ def rule_constraints(ctx):
         for fact in oracle[k]:
             if fact.endswith("super()._check_object_constraints()"):
                 continue    # C02.super-chain
-            if fact in facts:
+            if fact_satisfied(fact, facts):
                 run.ok("C02.constraints", key(fi.module.relpath, fi.qualname, fact))
             else:
                 run.violation("C02.constraints", key(fi.module.relpath, fi.qualname, fact),
